@@ -324,3 +324,6 @@ Proof.
 Qed.
 
 End Base.
+
+Print Assumptions scan128_rest.
+Print Assumptions parse_str_rest.
